@@ -18,7 +18,7 @@ Require Import Fggs.Model.Axis Fggs.Model.PTensor Fggs.Model.AxisCheck Fggs.Mode
 Require Import Fggs.Proofs.Axis_sem Fggs.Proofs.PTensor_dense.
 Require Import Fggs.Proofs.Einsum_dense Fggs.Proofs.Einsum_support Fggs.Proofs.Einsum_form Fggs.Proofs.Einsum_views Fggs.Proofs.Einsum_reduce.
 Require Import Fggs.Proofs.Einsum_project Fggs.Proofs.Einsum_reindex Fggs.Proofs.Einsum_top.
-Require Import Fggs.Model.Trop Fggs.Model.XVal Fggs.Proofs.Einsum_argmax Fggs.Proofs.Einsum_vit Fggs.Proofs.Einsum_examples.
+Require Import Fggs.Model.Trop Fggs.Model.XVal Fggs.Proofs.Einsum_argmax Fggs.Proofs.Einsum_vit Fggs.Proofs.Einsum_examples Fggs.Proofs.Einsum_oracle.
 Local Open Scope nat_scope.
 
 (** * (a) the dense specification *)
@@ -262,3 +262,32 @@ Theorem C07_viterbi_repeated_output_refuted :
   pop_all [0] [(0, Phys 1 2)] = Some [].
 Proof. exact viterbi_repeated_output_refuted. Qed.
 Print Assumptions C07_viterbi_repeated_output_refuted.
+
+(** * the oracles of the check functions are sound *)
+(** the brute-force denotation used by the oracle is the denotation *)
+Theorem C07_oracle_dspec_is_denote : forall (R : Type) (t : ptensor R) idx,
+  wf R t -> length idx = length (vaxes t) -> dspec t idx = denote R t idx.
+Proof. exact @dspec_denote. Qed.
+Print Assumptions C07_oracle_dspec_is_denote.
+
+(** verdict 0 of the specification oracle: the implementation's result has the shape and, cell by
+    cell (within the tolerance [okw]), the values of the dense specification on the denotations *)
+Theorem C07_oracle_spec_verdict_sound : forall (R WO : Type) (o : sr_ops R) (okw : R -> WO -> bool)
+  (ts : list (ptensor R)) inputs output i_shp (i_vals : list WO),
+  Forall (wf R) ts -> Forall2 (fun t inp => length (vaxes t) = length inp) ts inputs ->
+  spec_verdict o okw (map spec_operand ts) inputs output (0, i_shp, i_vals) = 0 ->
+  i_shp = einsum_shape (map (dn (R:=R)) ts) inputs output /\
+  Forall2 (fun x w => okw x w = true) (map (einsum_dense o (map (dn (R:=R)) ts) inputs output) (all_assts i_shp)) i_vals.
+Proof. exact @spec_verdict_sound. Qed.
+Print Assumptions C07_oracle_spec_verdict_sound.
+
+(** the pointer oracle: an accepted pointer tuple is in range and the product of the operand
+    entries at the pointed indices is the value *)
+Theorem C07_oracle_argmax_ok_sound : forall (R : Type) (o : sr_ops R) (veqb : R -> R -> bool) ops inputs output oidx vp value,
+  argmax_ok o veqb ops inputs output oidx vp value = true ->
+  (forall n, In n (map (lval (label_sizes (map fst ops) inputs)) (summed_labels inputs output)) -> n <> 0) ->
+  out_consistent output oidx = true ->
+  In vp (all_assts (map (lval (label_sizes (map fst ops) inputs)) (summed_labels inputs output))) /\
+  veqb (einsum_term o ops inputs (combine output oidx ++ combine (summed_labels inputs output) vp)) value = true.
+Proof. exact @argmax_ok_sound. Qed.
+Print Assumptions C07_oracle_argmax_ok_sound.
